@@ -108,7 +108,7 @@ check('C14', TV,
       'that the user-level certificate holds: objective gradient = dual-weighted constraint and bound gradients, '
       'dual-weighted right-hand sides = objective value, signs by direction of optimisation, results shaped like their '
       'constraints. Concrete half: the (pi, upi, lpi) of each dual-capable interface (SciPy, Gurobi, ECOS) give a valid '
-      'certificate whose value equals the exact optimum computed by z3.',
+      'certificate whose value equals the exact optimum computed by z3. Objective fronts: min/max, rsome.lp, and the same objective stated with minmax()/maxmin() over a random variable that does not matter.',
       'Trusted: the KKT convention of the interfaces (stated in evidence.assumptions); z3; the harness\'s own reading of '
       'the user model from the generator spec. Bounded: <= 4 variables, <= 4 constraint arrays, one upper/lower bound '
       'constraint per entry.',
@@ -152,7 +152,7 @@ check('C12', TV,
       'arrays at assigned (or omitted = zero) realisations, that Convex.__call__ equals the atom definition times '
       'multiplier plus offset on every concolic path (abs/max/sqrt branches explored exhaustively), and that dro '
       'per-scenario series carry the label of their scenario for every partition and order of adapt() calls; objective '
-      'read-back follows the sense.',
+      'read-back follows the sense. Every query is evaluated twice on the same objects; a read-back that raises where NumPy indexing succeeds is a violation; realisations given through slices; bi-affine dro calls with adaptive affine parts; convex calls per scenario; power and perspective atoms.',
       'Trusted: harness stub scipy.sparse @ object arrays (dense); EXP/LOG uninterpreted and shared with the oracle; '
       'coefficient tables (float arrays with NaN) are read with a sentinel solution. N/G atoms (numpy.linalg.norm on '
       'objects) and DecConvex transcendental calls are outside.',
@@ -166,7 +166,7 @@ check('C13', TV,
       'DecRule.to_affine() with symbolic columns and z3 decides: undeclared components have identically zero '
       'coefficients, scenarios of one event share the rule, scenarios of different events and distinct declared '
       'coefficients are independent, declared dependencies can be non-zero; mixed partitions give the common refinement; '
-      'illegal declarations raise.',
+      'illegal declarations raise. Also: random variables declared after adapt() or after the first use, decisions declared after the adaptive one with other partitions, shifted integer scenario labels given as labels or as Scen objects, slice objects created before adapt(), and a list of illegal declarations that must raise together with their legal neighbours that must not.',
       'Trusted: CrossHair 0.0.110 + z3; bounded to 2-4 scenarios and 3 random components. The illegal-declaration list '
       'and refinement labels are finite concrete probes (auxiliary, reported separately in evidence).',
       'CrossHair symbolic execution of pure-Python kernels + SMT over symbolic rule coefficients',
@@ -195,7 +195,7 @@ check('C03', TV,
       'and that plain constraints hold at every scenario and support vertex (QF_LRA with ite-max for piecewise integrands). '
       'Layer B: for the real solve() point the weights are symbolic (no enumeration of W). Probability sets with KL-divergence '
       'or entropy constraints: the weights stay symbolic, cone memberships are weakened to the pairing inequality and the '
-      'bilinear system (weights x compiled columns) is refuted by reformulation-linearisation (QF_LRA).',
+      'bilinear system (weights x compiled columns) is refuted by reformulation-linearisation (QF_LRA). Further members: expectation equalities E(..) == c, sums of expectations, equalities of adaptive decisions with their own set, convex functions of affinely adaptive decisions (which RSOME must refuse or compile correctly).',
       'Trusted: Lemma J and Lemma V (stated), the pairing inequality of the exponential cone, z3, oracle reading of the '
       'ambiguity set. Polyhedral supports and expectation sets only; norm-2 sets are outside.',
       'SMT translation validation (QF_LRA inclusion) of the compiled DRO reformulation against vertex distributions',
@@ -217,7 +217,7 @@ check('C09', TV,
       'under E(maxof) and in a plain constraint, interleaved ambiguity sets, repeated formulation) are replayed on the real '
       'API only; the program compiled after the history must satisfy the C01/C02 (ro) resp. C03/C04 (dro) obligations '
       'against the semantics of the declared model - inclusion for all compiled-feasible points and realisations / '
-      'distributions, exists-forall projection per block - and have the same exact optimum as a fresh build.',
+      'distributions, exists-forall projection per block - and have the same exact optimum as a fresh build. Decoy sets are tight and rotate through every constraint list of the shared support model (bounds, linear, abs/1-/inf-norm, 2-norm, p-norm, exp-type); further histories: integer variables declared after a formulation, one constraint object used with two forall() sets, ambiguity sets changed after a solve with nothing else declared.',
       'Trusted as C01-C04. Equality of denoted sets, not of matrices, is the oracle (histories may reorder or add columns).',
       'SMT translation validation of the program compiled after each history + exact optimum vs fresh build',
       'DESIGN.md section 4 C09')
